@@ -160,6 +160,13 @@ def make_layer(case):
 
 
 def exec_layer(case):
+    from checks import models as M
+
+    with M.repeatable_kernels(case["kind"] == "conv"):
+        return _exec_layer(case)
+
+
+def _exec_layer(case):
     out = Outcome()
     aq = ACT[case["aq"]]
     wq = O.QTALL[case["wq"]]
